@@ -3,6 +3,7 @@ package diags
 import (
 	"fmt"
 	"strconv"
+	"strings"
 
 	"gopkg.in/yaml.v3"
 )
@@ -124,9 +125,27 @@ func NewPositionRange(lines []string, val *yaml.Node, minColumn int) (offsets Po
 			columnIndex += lineSpaces - valSpaces
 		}
 
-		for gotIndex, got := range []byte(lines[lineIndex-1][columnIndex-1:]) {
+		for gotIndex := columnIndex - 1; gotIndex < len(lines[lineIndex-1]); gotIndex++ {
+			got := lines[lineIndex-1][gotIndex]
+			if got == '\\' && val.Style&yaml.DoubleQuotedStyle != 0 {
+				// An escape sequence is a few characters of the file that spell
+				// other characters of the value: all of them are positioned on it.
+				decoded, size := decodeEscape(lines[lineIndex-1][gotIndex:])
+				if strings.HasPrefix(val.Value[needIndex:], decoded) {
+					for i := range len(decoded) {
+						offsets = appendPosition(offsets, lineIndex, gotIndex+1+min(i, size-1))
+					}
+					needIndex += len(decoded)
+					if needIndex >= len(val.Value) {
+						goto END
+					}
+					need = val.Value[needIndex]
+				}
+				gotIndex += size - 1
+				continue
+			}
 			if need == got {
-				offsets = appendPosition(offsets, lineIndex, columnIndex+gotIndex)
+				offsets = appendPosition(offsets, lineIndex, gotIndex+1)
 				needIndex++
 				if needIndex >= len(val.Value) {
 					goto END
@@ -167,6 +186,59 @@ func emptyPositionRange(lines []string, val *yaml.Node) PositionRanges {
 	}
 	return PositionRanges{
 		{Line: line, FirstColumn: val.Column, LastColumn: val.Column},
+	}
+}
+
+// decodeEscape reads the escape sequence of a double quoted YAML scalar that s
+// starts with and returns the characters it stands for and its own length.
+func decodeEscape(s string) (decoded string, size int) {
+	if len(s) < 2 {
+		// An escaped line break, it adds nothing to the value.
+		return "", 1
+	}
+	switch s[1] {
+	case '0':
+		return "\x00", 2
+	case 'a':
+		return "\a", 2
+	case 'b':
+		return "\b", 2
+	case 't', '\t':
+		return "\t", 2
+	case 'n':
+		return "\n", 2
+	case 'v':
+		return "\v", 2
+	case 'f':
+		return "\f", 2
+	case 'r':
+		return "\r", 2
+	case 'e':
+		return "\x1b", 2
+	case 'N':
+		return "\u0085", 2
+	case '_':
+		return "\u00a0", 2
+	case 'L':
+		return "\u2028", 2
+	case 'P':
+		return "\u2029", 2
+	case 'x', 'u', 'U':
+		size = 4
+		if s[1] == 'u' {
+			size = 6
+		} else if s[1] == 'U' {
+			size = 10
+		}
+		if len(s) >= size {
+			if code, err := strconv.ParseUint(s[2:size], 16, 32); err == nil {
+				return string(rune(code)), size
+			}
+		}
+		return "", 2
+	default:
+		// The rest (space, quotes, slash, backslash) stands for itself.
+		return s[1:2], 2
 	}
 }
 
